@@ -72,6 +72,7 @@ REQUIRED = [
     'tcp_CLOSE_DELAY', 'tcp_ACK_DELAY_DEFAULT', 'tcp_DEFAULT_MSS', 'tcp_MIN_REMOTE_MSS',
     'tcp_RTTE_INITIAL_RTO', 'tcp_RTTE_MIN_RTO', 'tcp_RTTE_MAX_RTO',
     'neigh_SILENT_TIME', 'neigh_ENTRY_LIFETIME', 'meta_DISCOVERY_SILENT_TIME',
+    'cfg_IFACE_NEIGHBOR_CACHE_COUNT', 'cfg_IFACE_MAX_ROUTE_COUNT',
     'dns_RETRANSMIT_DELAY', 'dns_MAX_RETRANSMIT_DELAY', 'dns_RETRANSMIT_TIMEOUT', 'dns_DNS_PORT',
     'dhcp_DEFAULT_LEASE_DURATION', 'dhcp_MAX_IPV4_HEADER_LEN', 'wudp_HEADER_LEN', 'wdhcp_SERVER_PORT', 'wdhcp_CLIENT_PORT',
     'wdhcp_MAX_DNS_SERVER_COUNT',
